@@ -1233,6 +1233,45 @@ class Mini:
                 if self.truth(self.apply(args[0], [x])):
                     return ("Some", x)
             return "None"
+        if p == "std::iter::traits::iterator::Iterator::for_each":
+            for x in self.iterate(recv):
+                self.apply(args[0], [x])
+            return ()
+        if p in ("std::iter::traits::iterator::Iterator::cloned", "std::iter::traits::iterator::Iterator::copied", "std::iter::traits::iterator::Iterator::by_ref",
+                 "std::iter::traits::iterator::Iterator::peekable", "std::iter::traits::iterator::Iterator::fuse"):
+            return ("iter", [x.get() if isinstance(x, Ref) else x for x in self.iterate(recv)])
+        if p == "std::iter::traits::iterator::Iterator::skip" and isinstance(args[0], int):
+            return ("iter", self.iterate(recv)[args[0]:])
+        if p == "std::iter::traits::iterator::Iterator::take" and isinstance(args[0], int):
+            return ("iter", self.iterate(recv)[:args[0]])
+        if p == "std::iter::traits::iterator::Iterator::last":
+            xs = self.iterate(recv)
+            return ("Some", xs[-1]) if xs else "None"
+        if p == "std::iter::traits::iterator::Iterator::sum":
+            xs = self.iterate(recv)
+            if all(isinstance(x, int) and not isinstance(x, bool) for x in xs):
+                return sum(xs)
+            raise Unsupported("sum of abstract values")
+        if p in ("std::iter::traits::iterator::Iterator::max", "std::iter::traits::iterator::Iterator::min"):
+            xs = self.iterate(recv)
+            if not xs:
+                return "None"
+            if all(isinstance(x, int) and not isinstance(x, bool) for x in xs):
+                return ("Some", max(xs) if p.endswith("max") else min(xs))
+            raise Unsupported("max/min of abstract values")
+        if p == "std::iter::traits::iterator::Iterator::take_while":
+            out = []
+            for x in self.iterate(recv):
+                if not self.truth(self.apply(args[0], [x])):
+                    break
+                out.append(x)
+            return ("iter", out)
+        if p == "std::iter::traits::iterator::Iterator::skip_while":
+            xs = self.iterate(recv)
+            i = 0
+            while i < len(xs) and self.truth(self.apply(args[0], [xs[i]])):
+                i += 1
+            return ("iter", xs[i:])
         if p == "std::iter::traits::iterator::Iterator::collect":
             return list(self.iterate(recv))
         if p == "std::iter::traits::iterator::Iterator::position":
